@@ -330,6 +330,7 @@ def operator_suite(chk, w, rule, nmax, orders=(0, 1, 2, 3), cases=None, ns=None,
     names = sorted(cases or OP_CASES)
     for n in _ns(2, nmax, ns):
         grid = w.need_grid(w.grid_values(n))
+        grid2 = w.need_grid(w.grid_values(n))
         for A in orders:
             for name in names:
                 spec, need_c, vorder = OP_CASES[name]
@@ -341,7 +342,8 @@ def operator_suite(chk, w, rule, nmax, orders=(0, 1, 2, 3), cases=None, ns=None,
                         args = [box(a)]
                         ctx = {}
                         if vorder is not None:
-                            v = w.spline_on("v", vorder, grid, *wv)
+                            vgrid = grid2 if (wa[0] + wv[1]) % 2 else grid   # equal points, distinct Grid object
+                            v = w.spline_on("v", vorder, vgrid, *wv)
                             args.append(box(v))
                             ctx["v"] = ("v", vorder, wv)
                         if need_c:
@@ -494,6 +496,12 @@ def bilinear_suite(chk, w, rule, nmax, order_pairs=((1, 1), (2, 1), (0, 3), (2, 
                                 ctx["v"] = ("v", vorder, wv)
                             if name == "bf_aff":
                                 args += [box(Sc.atom(("k",))), box(Sc.atom(("k2",)))]
+                            same_obj = (A == B and wa == wb and (wa[0] + wa[1]) % 2 == 0)
+                            if same_obj:
+                                # the very same object as both arguments (a diagonal matrix element)
+                                args[1] = args[0]   # the same lvalue: &a == &b holds
+                                b = a
+                            bname = "a" if same_obj else "b"
                             sa, sb = snap(a), snap(b)
                             o = w.call(f, None, args)
                             want = set()
@@ -501,9 +509,9 @@ def bilinear_suite(chk, w, rule, nmax, order_pairs=((1, 1), (2, 1), (0, 3), (2, 
                             for I in range(n - 1):
                                 if wa[0] <= I and I + 1 < wa[1] and wb[0] <= I and I + 1 < wb[1]:
                                     ta = o1.apply(_in_arr("a", I, A), I, ctx)
-                                    tb = o2.apply(_in_arr("b", I, B), I, ctx)
+                                    tb = o2.apply(_in_arr(bname, I, B), I, ctx)
                                     ma = o1.mono(_in_mono("a", I, A), I, ctx)
-                                    mb = o2.mono(_in_mono("b", I, B), I, ctx)
+                                    mb = o2.mono(_in_mono(bname, I, B), I, ctx)
                                     want |= G(I)
                                     for i in range(len(ta)):
                                         for j in range(len(tb)):
@@ -513,7 +521,7 @@ def bilinear_suite(chk, w, rule, nmax, order_pairs=((1, 1), (2, 1), (0, 3), (2, 
                             ok, why = _scalar_ok(o, frozenset(want), frozenset(wantm))
                             if ok and (snap(a) != sa or snap(b) != sb):
                                 ok, why = False, "an operand was modified"
-                            case = dict(case=name, orders=(A, B), n=n, a=wa, b=wb)
+                            case = dict(case=name, orders=(A, B), n=n, a=wa, b=("the same object" if same_obj else wb))
                             if wv is not None:
                                 case["factor"] = wv
                             cs.expect(blame(w, name, f), "%s: the value is built from exactly the even-power products of the two "
